@@ -20,6 +20,7 @@ func init() {
 
 func runC03(c *Ctx) {
 	c03R1(c)
+	c03R1b(c)
 	verifyOK := c03R2(c)
 	c03R4(c, verifyOK)
 }
@@ -432,4 +433,32 @@ func litHas(l *Term, s string) bool {
 		}
 	}
 	return false
+}
+
+// c03R1b: the PKCE binding may only be removed in the issue phase, after the
+// handler that redeems the code: a request that passed the verifier check can
+// still fail later (another handler, a storage fault, a rollback), and the code
+// must then still carry its binding.
+func c03R1b(c *Ctx) {
+	const rule, role = "C03.R1", "pkce-delete"
+	var phases []*ssa.Function
+	phases = append(phases, c.ValidateFns()...)
+	phases = append(phases, c.AuthorizeFns()...)
+	n := 0
+	for _, fn := range phases {
+		n++
+		if c.P.CallsNamed(fn, ".DeletePKCERequestSession", 4) {
+			c.Bad(rule, role, fn, "delete-not-before-redemption", "DeletePKCERequestSession is not reachable from a validate-phase or authorize-phase function (a token request that passed the PKCE check can still fail before the code is redeemed)", "the PKCE session is deleted in a phase that precedes the redemption of the code", nil)
+		}
+	}
+	if n > 0 {
+		c.OK(rule, role, nil, "delete-not-before-redemption:all", "no validate/authorize-phase function reaches DeletePKCERequestSession")
+	}
+	del := c.Calling(c.IssueFns(), ".DeletePKCERequestSession")
+	for _, fn := range del {
+		// the deleting handler must be registered after the handler that redeems the code
+		for _, red := range c.codeRedeemFns() {
+			c.checkComposeOrder("C03.R5", recvTypeName(red), recvTypeName(fn), "the PKCE session is removed only after the code was redeemed")
+		}
+	}
 }
